@@ -143,6 +143,9 @@ structure Setup where
   useSpec : Bool := false                    -- evaluate the body with the spec's outcome (for the oracle)
   origBytes : Stream.Bytes
   origVal : Option Body.J         -- none: not JSON
+  /-- the received text is what the JSON encoder writes for its value (compact, keys sorted): re-encoding the unchanged
+      value gives the very same bytes -/
+  origCanonical : Bool := false
 
 structure PassOut where
   req : Stream.Req
@@ -162,9 +165,14 @@ def lookupBytes (t : List (Stream.Bytes × Option Body.J)) (b : Stream.Bytes) : 
 /-- decoding + validation of the bytes: media type selection, the value layer, the encoder -/
 def evalBody (su : Setup) (table : List (Stream.Bytes × Option Body.J)) (fresh : Stream.Bytes) (data : Stream.Bytes) :
     Stream.BodyOutcome × Option Body.J :=
-  -- the generator sends only JSON texts under a YAML media type: the YAML decoder reads them as the same value
+  -- the generator sends only JSON texts under a YAML media type: the YAML decoder reads them as the same value;
+  -- the encoder: an unchanged value whose text already is the encoder's own output is written as the same bytes
+  let canonical := if data == su.origBytes then su.origCanonical else true
+  let enc := fun (v : Body.J) => match lookupBytes table data with
+    | some dv => if canonical && Body.J.beq v dv then data else fresh
+    | none => fresh
   let cd : Media.Codec := { parse := fun d => lookupBytes table d, yaml := fun d => lookupBytes table d,
-                            text := fun _ => su.origText, enc := fun _ => fresh }
+                            text := fun _ => su.origText, enc := enc }
   let out := if su.useSpec then Media.specOutcome su.ctx su.declared su.header cd data
              else Media.bodyOutcome su.ctx su.declared su.header cd data
   let newVal := match Media.selected su.declared su.header with
@@ -228,7 +236,7 @@ def handle (j : Json) : Json :=
     ((strs (asArr q)).foldr insName []).map (fun n => { declared := declared.contains n, auth := authOf n }))
   let bs := getD j "bodySpec" Json.null
   let skip := getBool o "skip"
-  let ctx : Body.Ctx := { setDefaults := !skip, roDisabled := getBool o "roDisabled" }
+  let ctx : Body.Ctx := { setDefaults := !skip, roDisabled := getBool o "roDisabled", multi := getBool o "multi" }
   let bodyText : Option String := match j.getObjVal? "body" with | .ok (.str s) => some s | _ => none
   let origVal : Option Body.J := match bodyText with
     | some t => (match Json.parse t with | .ok v => some (toJ v) | .error _ => none)
@@ -246,7 +254,10 @@ def handle (j : Json) : Json :=
     hasFunc := getBool sec "hasFunc", reqs := reqs, params := Params.visited exq pathParams opParams,
     hasBodySpec := getBool bs "present", required := getBool bs "required",
     declared := declaredContent, header := header, origText := bodyText.getD "",
-    origBytes := origBytes, origVal := origVal }
+    origBytes := origBytes, origVal := origVal,
+    origCanonical := match bodyText with
+      | some t => (match Json.parse t with | .ok v => v.compress == t | .error _ => false)
+      | none => false }
   let stm := getD j "stream" Json.null
   let clKnown := getStr stm "cl" != "unknown"
   let r0 : Stream.Req := {
@@ -285,6 +296,7 @@ def handle (j : Json) : Json :=
     (if su.params.any (fun p => Params.DefaultReadsAsEmpty skip p st0) then ["DefaultReadsAsEmpty"] else []) ++
     (if su.params.any (fun p => Params.EmptyArrayWritten skip p st0) then ["EmptyArrayWritten"] else []) ++
     (if noEnc then ["NoBodyEncoder"] else []) ++
+    (if bodyReached && Media.ReencodedUnchanged ctx su.declared header cd0 origBytes then ["ReencodedUnchanged"] else []) ++
     (if su.params.any (fun p => Params.ContentParamDefault skip p st0) then ["ContentParamDefault"] else [])
   let anyReq := fun (f : Stream.Scheme → Bool) => reqs.any (fun q => q.any f)
   let branches := dedup (
